@@ -346,7 +346,7 @@ impl Ctx {
                         "checker": checker,
                         "engine": engine,
                         "nth_nontrivial_of_checker_in_shard": *n,
-                        "case": serde_json::to_value(case).unwrap_or(Value::Null),
+                        "case": abridge(serde_json::to_value(case).unwrap_or(Value::Null)),
                     }));
                 }
             }
@@ -516,8 +516,27 @@ impl Ctx {
         let mut st = self.stats.borrow_mut();
         if st.samples.len() < 24 {
             st.samples.push(json!({"checker": checker, "engine": engine,
-                "case": serde_json::to_value(case).unwrap_or(Value::Null)}));
+                "case": abridge(serde_json::to_value(case).unwrap_or(Value::Null))}));
         }
+    }
+}
+
+/// Evidence samples are illustrations (replay files hold complete cases): arrays of more than 48
+/// entries are shown by their length, their first 24 and their last 8 entries.
+pub fn abridge(v: Value) -> Value {
+    match v {
+        Value::Array(a) => {
+            if a.len() > 48 {
+                let n = a.len();
+                let first: Vec<Value> = a.iter().take(24).cloned().map(abridge).collect();
+                let last: Vec<Value> = a.iter().skip(n - 8).cloned().map(abridge).collect();
+                json!({"abridged_array_of_len": n, "first_24": first, "last_8": last})
+            } else {
+                Value::Array(a.into_iter().map(abridge).collect())
+            }
+        }
+        Value::Object(o) => Value::Object(o.into_iter().map(|(k, v)| (k, abridge(v))).collect()),
+        other => other,
     }
 }
 
